@@ -178,7 +178,8 @@ type tree struct {
 	want  map[string]string // what the packed program must see
 	dir   string
 	entry string
-	zip   []byte // archive bytes Pack writes for this tree (reference: empty interpreter binary)
+	zip   []byte      // archive bytes Pack writes for this tree (reference: empty interpreter binary)
+	bad   *hx.Failure // Pack fails on this tree already with an empty binary
 }
 
 const entryName = "main.ecal"
@@ -372,21 +373,7 @@ func setup(t testing.TB) {
 		if err := os.WriteFile(e.src, nil, 0644); err != nil {
 			t.Fatal(err)
 		}
-		if err := doPack(tr.dir, e.src, e.dst, tr.entry); err != nil {
-			t.Fatalf("setup: Pack of tree %s with an empty binary failed: %v", tr.name, err)
-		}
-		b, err := os.ReadFile(e.dst)
-		if err != nil || !bytes.HasPrefix(b, []byte(marker)) {
-			t.Fatalf("setup: Pack of tree %s with an empty binary does not start with the marker (%v)", tr.name, err)
-		}
-		tr.zip = b[len(marker):]
-		got, err := readZip(tr.zip)
-		if err != nil {
-			t.Fatalf("setup: reference archive of tree %s unreadable: %v", tr.name, err)
-		}
-		if d := diffFiles(got, tr.want); d != "" {
-			t.Fatalf("setup: reference archive of tree %s differs from the tree: %s", tr.name, d)
-		}
+		tr.bad = reference(e, tr)
 		e.trees[tr.name] = tr
 	}
 	verifhook.SetHandler(func(point string, args ...interface{}) {
@@ -406,6 +393,32 @@ func setup(t testing.TB) {
 	})
 	cur = e
 	t.Cleanup(func() { cur = nil; verifhook.SetHandler(nil) })
+}
+
+// reference packs a tree with an empty interpreter binary and keeps the
+// archive bytes. A defect of Pack which shows already here is a violation of
+// every case which uses the tree (returned by runCase, so it is replayable).
+func reference(e *env, tr *tree) (fail *hx.Failure) {
+	var perr error
+	if f := hx.Guard(func() { perr = doPack(tr.dir, e.src, e.dst, tr.entry) }); f != nil {
+		return f
+	}
+	if perr != nil {
+		return hx.Failf("pack-error", "tree %s, empty binary: Pack returned %v", tr.name, perr)
+	}
+	b, err := os.ReadFile(e.dst)
+	if err != nil || !bytes.HasPrefix(b, []byte(marker)) {
+		return hx.Failf("pack-layout", "tree %s, empty binary: target does not start with the marker (%v)", tr.name, err)
+	}
+	tr.zip = b[len(marker):]
+	got, err := readZip(tr.zip)
+	if err != nil {
+		return hx.Failf("pack-archive-unreadable", "tree %s, empty binary: archive at offset %d: %v", tr.name, len(marker), err)
+	}
+	if d := diffFiles(got, tr.want); d != "" {
+		return hx.Failf("pack-archive-content", "tree %s, empty binary: archive written by Pack differs from the tree: %s", tr.name, d)
+	}
+	return nil
 }
 
 // ---------------------------------------------------------------- one case
@@ -478,6 +491,9 @@ func runCase(c Case) *hx.Failure {
 	hx.E.Case(nontrivial, key, classes...)
 	if nontrivial {
 		hx.E.Sample(key, c)
+	}
+	if tr.bad != nil {
+		return tr.bad
 	}
 
 	// build the target
